@@ -453,7 +453,13 @@ impl Jwk {
     }
 
     if let Some(value) = self.key_ops() {
-      public.set_key_ops(value.iter().map(|op| op.invert()));
+      // Operations are replaced by their public counterpart only when a private key is left behind;
+      // projecting a key that is already public must not flip them back.
+      if self.is_public() {
+        public.set_key_ops(value.iter().copied());
+      } else {
+        public.set_key_ops(value.iter().map(|op| op.invert()));
+      }
     }
 
     if let Some(value) = self.alg() {
